@@ -85,6 +85,32 @@ theorem masked_pixels_read_zero (m : Mask) (slim : List α) (zero : α) :
     simp only [nativeForSlim_eq]
     exact this
 
+/-- (masked arrays held in native form) whatever the stored native array holds **under the mask** —
+    after arithmetic on a native-stored array, or construction with `skip_mask=True` — the HDU written is
+    that of the zero-filled native array (`applyMask`: the stored value at unmasked pixels, zero at
+    masked ones), and reading it back returns exactly that. -/
+theorem native_stored_written_zero_filled [DecidableEq α] (flip : Bool) (m : Mask) (an : List α)
+    (sc : α × α) (zero : α) (hh : 0 < m.h) (han : an.length = m.h * m.w) :
+    array2dHduStored flip m (.native an) sc zero
+      = some (hduForOutput2d flip (toRows m.h m.w (Impl.applyMask m an zero))
+          (pixelScaleHeader [sc.1, sc.2] zero))
+    ∧ (∀ k, k < m.h * m.w → (Impl.applyMask m an zero)[k]?
+        = some (if m.bits.getD k true then zero else an.getD k zero))
+    ∧ ∃ r, (array2dHduStored flip m (.native an) sc zero).bind (fun h => array2dFromHdu flip h zero) = some r
+        ∧ r.mask = allFalse m.h m.w ∧ r.scales = sc
+        ∧ r.native zero = some (Impl.applyMask m an zero) := by
+  have h1 : array2dHduStored flip m (.native an) sc zero
+      = some (hduForOutput2d flip (toRows m.h m.w (Impl.applyMask m an zero))
+          (pixelScaleHeader [sc.1, sc.2] zero)) := by
+    simp [array2dHduStored, storedNativeRows, Impl.viewNative, Impl.convertArray2d,
+      Impl.Stored.toInput, han]
+  have hlen : (Impl.applyMask m an zero).length = m.h * m.w := by simp [Impl.applyMask]
+  refine ⟨h1, ?_, ?_⟩
+  · intro k hk
+    simp [Impl.applyMask, hk]
+  · obtain ⟨r, hr⟩ := array2dFromHdu_hduForOutput2d flip m.h m.w _ sc zero hh hlen
+    exact ⟨r, by rw [h1]; exact hr.1, hr.2⟩
+
 /-- (mask, HDU route) a mask written as floats and read back is the same mask — same shape, same
     booleans — with the same pixel scales, for either flip setting -/
 theorem mask2d_hdu_roundtrip [DecidableEq α] (flip : Bool) (m : Mask) (sc : α × α) (zero one : α)
